@@ -1,7 +1,7 @@
 use crate::{
     cfg::{Cfg, CfgNode},
     parser::{HasIdentity, Label, ParserNode},
-    passes::{DiagnosticManager, LintError, LintPass},
+    passes::{DiagnosticLocation, DiagnosticManager, LintError, LintPass},
 };
 use std::collections::BTreeSet;
 use uuid::Uuid;
@@ -35,8 +35,9 @@ impl LintPass for OverlappingFunctionCheck {
                     || node.prevs().iter().any(|prev| owners(prev) != owners(&node)))
             {
                 // HACK: Create a dummy label with the same name
+                // The first label in the source, whatever the labels are called
                 let mut labels = node.labels().into_iter().collect::<Vec<_>>();
-                labels.sort();
+                labels.sort_by(|a, b| a.range().cmp(&b.range()).then_with(|| a.cmp(b)));
                 let location = match labels.first() {
                     Some(l) => ParserNode::Label(Label {
                         name: l.clone(),
